@@ -70,7 +70,37 @@ def main():
     pd = vlib.run([drive, "binarycursor", "-cases", dp, "-seed", str(vlib.seed())], timeout=600)
     if json.loads(pd.stdout.strip().splitlines()[-1])["mismatches"] == 0:
         raise vlib.Infra("binarycursor binding demonstration: a swapped expectation was not reported")
+    # spec/JpegLexer.tla: the marker lexer beneath jpegmeta.Load; the as-found design must violate
+    # FillAccepted (defect 12), the repaired one is checked and every session over 7 byte values
+    # of length <= 6 is replayed on the real segment reader
+    ra = vlib.tlc("JpegLexer", "JpegLexer_asfound.cfg", heap="1g", workers=2)
+    if "FillAccepted" not in (ra.violated or ""):
+        raise vlib.Infra("JpegLexer as found should violate FillAccepted (got %s)" % ra.violated)
+    rl = vlib.tlc("JpegLexer", "JpegLexer_repaired.cfg", heap="3g", workers=4)
+    if rl.violated:
+        raise vlib.Infra("JpegLexer repaired violates %s" % rl.violated)
+    lpath = os.path.join(out, "jpeglexer.ndjson")
+    with open(lpath, "w") as f:
+        for c in rl.printed:
+            f.write(json.dumps(c) + "\n")
+    pl = vlib.run([drive, "jpeglexer", "-cases", lpath], timeout=1800)
+    llines = [json.loads(l) for l in pl.stdout.strip().splitlines()]
+    lsum = llines[-1]
+    lmis = [l["mismatch"] for l in llines if "mismatch" in l]
+    if not lsum.get("summary") or lsum["cases"] != len(rl.printed) or lsum["calls"] == 0:
+        raise vlib.Infra("jpeglexer replay did not run all cases: %r" % lsum)
+    # binding demonstration: an expectation with the marker code changed must be reported
+    dc = json.loads(json.dumps(next(c for c in rl.printed if c["calls"] and c["calls"][0]["err"] == "nil" and c["calls"][0]["code"] == 216)))
+    dc["calls"][0]["code"] = 217
+    dlp = os.path.join(out, "jpeglexer_demo.ndjson")
+    open(dlp, "w").write(json.dumps(dc) + "\n")
+    pdl = vlib.run([drive, "jpeglexer", "-cases", dlp], timeout=600)
+    if json.loads(pdl.stdout.strip().splitlines()[-1])["mismatches"] == 0:
+        raise vlib.Infra("jpeglexer binding demonstration: a changed expectation was not reported")
     ev = {"what": "spec/Extras.tla judged %d observations of the real code" % len(lines), "events_by_kind": kinds,
+          "jpeg_lexer": {"tlc_distinct_states": rl.distinct, "sessions_replayed": lsum["cases"], "calls_compared": lsum["calls"],
+                         "mismatches": lsum["mismatches"], "as_found_design": "violates FillAccepted (expected counterexample)",
+                         "binding_demo": "changed expectation reported"},
           "binary_cursor": {"tlc_distinct_states": rb.distinct, "behaviours_replayed": bsum["cases"], "calls_compared": bsum["calls"],
                             "writes_compared": bsum["writes"], "mismatches": bsum["mismatches"], "binding_demo": "swapped expectation reported"},
           "rejected": len(rejects), "binding_demo_corrupted_rejected": len(drej), "wall_s": round(time.time() - t0, 1),
@@ -81,7 +111,9 @@ def main():
         print("EXTRA-REJECT %s" % lines[n][:400])
     for m in bmis[:10]:
         print("EXTRA-REJECT binarycursor %s" % json.dumps(m)[:400])
-    if rejects or bmis:
+    for m in lmis[:10]:
+        print("EXTRA-REJECT jpeglexer %s" % json.dumps(m)[:400])
+    if rejects or bmis or lmis:
         return 1
     print("OK extras events=%d wall=%.1fs" % (len(lines), time.time() - t0))
     return 0
